@@ -154,7 +154,11 @@ class TrioEventLoop(EventLoop):
         for i, (_task, pending_scope, _args) in enumerate(self._pending_tasks):
             if pending_scope is scope:
                 del self._pending_tasks[i]
+                scope.cancel()  # a second removal finds it cancelled
                 return True
+        if self._nursery is None:
+            # not running: every task of an earlier run() is over, a pending one was removed before
+            return False
 
         existed = not scope.cancel_called
         scope.cancel()
